@@ -6,6 +6,9 @@ def main():
     run = Run("C04")
     cfgs = ["MC_BigBed_t1.cfg", "MC_BigBed_t2.cfg"] if run.thorough else ["MC_BigBed_q1.cfg", "MC_BigBed_q2.cfg"]
     beh = emit(run, "MC_BigBed", cfgs)
+    # deeper layouts (5..8 entries, one entry per block, fan-out 2 => 3- and 4-level indexes) by random walks
+    deep = emit_sim(run, "MC_BigBed", "MC_BigBed_deep.cfg", 6000 if run.thorough else 500)
+    beh += deep
     sizes = lambda b: [b["L"]] * b["NC"]
     cases = make_cases(beh, "bb", sizes, run, allq=1)
     def nt(o):
